@@ -1076,7 +1076,8 @@ def mirror(ck_driver, case):
 
 def mirror_answers(case, out):
     diffs = []
-    stats = {'crit': 0, 'growth': 0, 'pot0': None, 'pot': None}
+    stats = {'crit': 0, 'growth': 0, 'pot0': None, 'pot': None,
+             'dcrit': 0, 'dgrowth': 0, 'dpot0': None, 'dpot': None}
     if len(out) != len(case.lines):
         return [f'driver answered {len(out)} lines for {len(case.lines)}'], stats
     for k, (ln, ans, obs) in enumerate(zip(case.lines, out, case.obs)):
@@ -1087,6 +1088,7 @@ def mirror_answers(case, out):
             continue
         if ln.startswith('track'):
             stats['pot0'] = int(ans.split()[0].split('=')[1])
+            stats['dpot0'] = int(ans.split()[1].split('=')[1])
             continue
         if ans in ('none', 'parse-error', 'bad-topo'):
             diffs.append(f'step {k} `{ln}`: model says {ans} (transition '
@@ -1097,6 +1099,9 @@ def mirror_answers(case, out):
             stats['crit'] += extra.get('crit', 0)
             stats['growth'] += extra.get('growth', 0)
             stats['pot'] = extra.get('pot')
+            stats['dcrit'] += extra.get('dcrit', 0)
+            stats['dgrowth'] += extra.get('dgrowth', 0)
+            stats['dpot'] = extra.get('dpot')
         if obs is None:
             continue
         d = compare(obs, model)
@@ -1292,7 +1297,11 @@ def summarise(spec, case, answers):
     bad = oracles(case)
     bound_ok = True
     if stats['pot0'] is not None and stats['pot'] is not None:
-        bound_ok = stats['pot'] + stats['crit'] <= stats['pot0'] + stats['growth']
+        bound_ok = (
+            stats['pot'] + stats['crit'] <= stats['pot0'] + stats['growth']
+            and stats['pot'] + stats['dpot'] + stats['crit'] + stats['dcrit']
+            <= stats['pot0'] + stats['dpot0'] + stats['growth']
+            + stats['dgrowth'])
     net = case.net
     vk = None
     if fault is not None:
@@ -1500,7 +1509,8 @@ def run(ck: Check):
             ck.bump('client_outcomes', 'returned-before-fault', r['returned'])
             if r['keyerror_after_shutdown']:
                 ck.bump('detached_keyerror_after_shutdown_logged')
-            ck.bump('critical_deliveries', str(r['stats']['crit']))
+            ck.bump('critical_deliveries_up', str(r['stats']['crit']))
+            ck.bump('critical_deliveries_down', str(r['stats']['dcrit']))
         ck.coverage['traces_validated_against_impl'] += 1
         if len(ck.coverage['samples']) < 4 and r['faulted']:
             ck.sample({'topology': r['args'][0], 'prefix': r['args'][4],
@@ -1534,7 +1544,8 @@ def run(ck: Check):
 
     t0 = time.time()
     a2_thread.join(timeout=float(os.environ.get('C14_A2_SECONDS', 0) or 0)
-                   + (2400 if thorough else 420))
+                   + float(os.environ.get('C14_LOCK_WAIT', 0) or 600) * 3
+                   + (2400 if thorough else 700))
     ck.coverage['seconds_waiting_for_real_process_batch'] = round(
         time.time() - t0, 1)
     if a2_thread.is_alive():
@@ -1570,6 +1581,11 @@ def _sig(sig, r):
 
 
 def _a2_batch(ck, a2, thorough):
+    """Real-process kills.  Quick: the three core cases (attached worker, 3-level
+    mid manager, detached manager), started as long as the run-time budget lasts;
+    the machine-wide runtime lock is waited for (C14_LOCK_WAIT seconds, default
+    600) - on an idle machine there is no wait.  Thorough: the seeded matrix in
+    a time box (C14_A2_SECONDS)."""
     if os.environ.get('C14_NO_A2'):
         a2['skipped'] = 'disabled by C14_NO_A2 (development switch)'
         return
@@ -1582,26 +1598,29 @@ def _a2_batch(ck, a2, thorough):
         rng = random.Random(ck.seed * 7 + 1)
         cases = P.default_cases(rng, 220 if thorough else 6)
         if not thorough:
-            # time-boxed: start with a seed-dependent case so that the seeds
-            # together cover the core matrix
-            k = ck.seed % len(cases)
-            cases = cases[k:] + cases[:k]
+            core = [cases[0], cases[3], cases[2]]
+            k = ck.seed % 3
+            cases = core[k:] + core[:k]
         budget = float(os.environ.get('C14_A2_SECONDS', 0) or
-                       (1700 if thorough else 70))
-        t_end = time.time() + budget
+                       (1700 if thorough else 100))
+        lock_wait = float(os.environ.get('C14_LOCK_WAIT', 0) or 600)
+        used = 0.0
         for case in cases:
-            if time.time() > t_end:
+            if used > budget:
                 a2['skipped'] = (a2['skipped'] or '') + \
                     f' time budget reached after {len(a2["results"])} runs;'
                 break
+            t0 = time.time()
             res = P.run_case(case, hard_timeout=(360 if thorough else 200),
-                             lock_wait=(600 if thorough else 40))
+                             lock_wait=lock_wait)
             if res.get('lock_busy'):
                 a2['skipped'] = (a2['skipped'] or '') + \
-                    ' runtime lock busy (another check holds a runtime);'
+                    f' runtime lock busy for {lock_wait:.0f} s (another check' \
+                    ' holds a runtime);'
                 if not thorough:
                     break
                 continue
+            used += time.time() - t0 - float(res.get('lock_wait_seconds') or 0)
             a2['results'].append((case, res))
     except Exception as e:      # noqa: BLE001
         import traceback
@@ -1614,6 +1633,10 @@ def _a2_report(ck, a2):
     ck.coverage['real_process_runs'] = len(a2['results'])
     if a2['skipped']:
         ck.coverage['real_process_skipped'] = a2['skipped'].strip()
+        if ck.tier != 'quick' or len(a2['results']) < 2:
+            print('NOTE: C14 ******** real-process kill runs incomplete: '
+                  f'{len(a2["results"])} done; {a2["skipped"].strip()} ********',
+                  flush=True)
     for case, res in a2['results']:
         tag = f"{case['mode']}/{case['victim']}/{case['phase']}/" \
               f"{case.get('workload')}/{case.get('call')}" \
